@@ -13,6 +13,22 @@ CHECKS = {
          'tree shapes of real fits and the real split routine on every (f,n) are compared with the model inside Coq.',
          'Trusted: Coq kernel + vm_compute, the AST translator, the recording wrapper, PrimFloat as a model of CPython float arithmetic; torch.sort returns a permutation. '
          'Leaf fitting itself is not part of this property (a leaf with an empty validation set is scored on its own rows by the harness).'),
+
+ 'C01': ('DESIGN.md §4 C01',
+         'Coq proof (Permutation + sorted-uniqueness, induction over trees) of an executable model of routing/grouping/chunking/argsort-reorder + vm_compute correspondence through exact probe leaves + mpmath formula oracle',
+         'Theorem for every tree, batch, batch size and row-wise leaf predictor: the traversal/reorder pipeline returns f(leaf reached by <=, x) per row; corollaries: batch-size, concatenation, permutation, row independence, ensemble mean. '
+         'The real _predict_tree_hard/predict are run on probe leaves (real RFM.predict loop, stubbed kernel) and compared bit-for-bit with the model in Coq; real leaves are compared with the mpmath kernel expansion of the leaf reached by exact routing.',
+         'Trusted: Coq kernel + vm_compute, probe leaf, Fraction/mpmath oracle. Kernel values themselves are C05. Rows within rounding distance of a threshold are excluded (as the property states).'),
+ 'C07': ('DESIGN.md §4 C07',
+         'Coq proof (Permutation reasoning over a recorded-run tree, local checker soundness) + vm_compute of the checker on recorded real fits + set-level oracle',
+         'Theorem: any recorded run whose nodes pass the local checker (children partition the node with ceil/floor sizes; centers ++ moved = received; moved count = refill rule) uses every sample exactly once globally; refill bounds; for ANY randperm result kept/moved partition the node. '
+         'Recorded real fits (recording RFM subclass) are checked by the Coq checker and by a direct oracle (row identity, target alignment, validation composition).',
+         'Trusted: Coq kernel + vm_compute, recorders, byte-exact row lookup; torch.randperm returns a permutation. Proviso of the property (non-empty leaf validation) assumed.'),
+ 'C08': ('DESIGN.md §4 C08',
+         'Coq proof (counting argument over filter lengths, lra/lia; induction over the tree) of a relational model of rank split vs lower-median threshold + vm_compute of the relation on recorded real trees',
+         'Theorem for every node size (odd/even), overlap, tie order: rank halves + lower-median threshold imply left-only samples are not above and right-only not below the threshold (slack 2e); lifted to whole trees: an untied training sample is routed to a leaf that received it. '
+         'Recorded real trees are checked in Coq (tokb), real routing is compared with exact routing and training membership, validation assignment with the <= rule; the comparison operators are re-translated from source each run (C06 translator).',
+         'Trusted: Coq kernel + vm_compute, recorders, slack e bounding float32 projection rounding; torch.sort sorts, torch.median is the lower median (both checked through tokb on every recorded node).'),
 }
 
 NOT_YET = 'check not built yet in this session (planned, see DESIGN.md §4)'
